@@ -260,7 +260,7 @@ theorem mem_boundary {E : Ising} {st mask : List Bool} {b : Nat} {wb wa : Rat}
 /-- what the sweep needs to know about an operator of the configuration before the move: a diagonal
 tag means `outs = ins`; an operator on an edge bond acts on that edge's two variables; an operator
 flagged constant sits on a transverse-field bond. (All three follow from C07's `Legal` for the Ising
-Hamiltonian: `opOK_of_legalFor` in QmcProofs/RvbKernel.lean.) -/
+Hamiltonian: `opOK_of_legalFor` in QmcProofs/RvbHam.lean.) -/
 def OpOK (E : Ising) (o : Op) : Prop :=
   (o.tagDiag = true → o.outs = o.ins) ∧
   (∀ u v j, E.edges[o.bond]? = some (u, v, j) → o.vars = [u, v]) ∧
